@@ -11,7 +11,7 @@ import sys
 import time
 
 VERIF = os.path.dirname(os.path.dirname(os.path.abspath(__file__)))
-REPO = "/repo"
+REPO = os.environ.get("VERIF_REPO", "/repo")   # (an isolated copy for mutation runs; the registered commands never set it)
 HARNESS = os.path.join(VERIF, "harness")
 WORK = os.path.join(VERIF, ".work")
 TLC_SH = os.path.join(VERIF, "bin", "tlc.sh")
